@@ -7,6 +7,9 @@ import QV.Core.GI
 import QV.Model.Table
 import QV.Model.Sim
 import QV.Model.Measure
+import QV.Model.CircuitAdd
+import QV.Model.Repeated
+import QV.Model.MeasureProbs
 open QV
 
 structure Rd where
@@ -105,6 +108,127 @@ def nextCOp : P (COp GI) := do
     let m ← nextNat
     let j ← nextNat
     pure (.cgate (← nextGate) m j)
+
+/-! ### Circuit.add bookkeeping -/
+
+def dfltName (k : Nat) : String := "register" ++ toString k
+
+/-- item: `G k q…` | `M k t… hasname name collapse nrot r…` (name token ignored if hasname = 0) -/
+def nextItem : P (CAdd.Item String) := do
+  let t ← nextTok
+  match t with
+  | "G" => pure (.gate (← nextNatList))
+  | _ =>
+    let ts ← nextNatList
+    let hn ← nextNat
+    let nm ← nextTok
+    let c ← nextNat
+    let rot ← nextNatList
+    let name := if hn == 1 then some nm else none
+    if rot.isEmpty then pure (.meas ts name (c == 1)) else pure (.measB ts name (c == 1) rot)
+
+def commaNats (l : List Nat) : String := ",".intercalate (l.map toString)
+
+def showAddState (st : CAdd.St String) : String :=
+  let ents := (List.range st.queue.length).map fun i =>
+    match st.queue[i]? with
+    | some e =>
+      if e.isM then s!"M:{commaNats e.qubits}:{e.name.getD "?"}:{if st.coll i then 1 else 0}"
+      else s!"G:{commaNats e.qubits}"
+    | none => "?"
+  let tup := (CAdd.measurementTuples st).map fun (nm, ts) => s!"{nm.getD "?"}={commaNats ts}"
+  " ".intercalate ents ++ " | " ++ showNats st.meas ++ " | " ++ (if st.hasCollapse then "1" else "0")
+    ++ " | " ++ " ".intercalate tup
+
+/-- add item by item; on rejection report the index of the rejected item and the state before -/
+def runAdd : Nat → CAdd.St String → List (CAdd.Item String) → String
+  | _, st, [] => showAddState st
+  | k, st, x :: xs =>
+    match CAdd.addItem dfltName st x with
+    | none =>
+      -- the basis rotations of a rejected measurement are already in the queue
+      let st0 := match x with
+        | .measB _ _ _ rot => rot.foldl (fun s q => CAdd.addGate s [q]) st
+        | _ => st
+      s!"ERR {k} | " ++ showNats st0.meas
+    | some st' => runAdd (k + 1) st' xs
+
+/-! ### execute_circuit_repeated -/
+
+/-- state-vector simulator on materialised tables -/
+def svSemT (n : Nat) : Rep.Sem (Array GI) (MGate GI) :=
+  { gate := fun g a => tableOf n (applyGate g (ofTable n a)),
+    coll := fun ts d a => tableOf n (collapseState ts d (ofTable n a)) }
+
+/-- density-matrix simulator on materialised tables -/
+def dmSemT (n : Nat) : Rep.Sem (Array GI) (MGate GI) :=
+  { gate := fun g a =>
+      let r1 := tableOf2 n (applyRight GI.conj g (ofTable2 n a))
+      tableOf2 n (applyLeft g (ofTable2 n r1)),
+    coll := fun ts d a => tableOf2 n (collapseDM ts d (ofTable2 n a)) }
+
+def nextQOp : P (Rep.QOp (MGate GI)) := do
+  let t ← nextTok
+  match t with
+  | "G" => pure (.gate (← nextGate))
+  | "M" =>
+    let ts ← nextNatList
+    let c ← nextNat
+    pure (.meas ts (c == 1))
+  | _ =>
+    let m ← nextNat
+    let j ← nextNat
+    pure (.cgate (← nextGate) m j)
+
+def bitStr (r : List Nat) : String := String.join (r.map toString)
+
+/-- qubit lists on which one shot draws: sorted targets of the collapsing measurements, then
+the terminal registers concatenated -/
+def drawQubits : List (Rep.QOp (MGate GI)) → List (List Nat)
+  | [] => []
+  | .meas ts true :: ops => sortAsc ts :: drawQubits ops
+  | _ :: ops => drawQubits ops
+
+def nMeasOps : List (Rep.QOp (MGate GI)) → Nat
+  | [] => 0
+  | .meas _ _ :: ops => nMeasOps ops + 1
+  | _ :: ops => nMeasOps ops
+
+def showRep (dm : Bool) (n : Nat) (ops : List (Rep.QOp (MGate GI))) (o : Rep.Out (Array GI)) : String :=
+  let rows := if o.rows.isEmpty then "-" else " ".intercalate (o.rows.map bitStr)
+  let caches := " ".intercalate ((List.range (nMeasOps ops)).map fun i =>
+    match o.caches i with
+    | none => "-"
+    | some t => if t.isEmpty then "e" else ",".intercalate (t.map bitStr))
+  let k := (Rep.globOf ops).length
+  let glob := Rep.globOf ops
+  let dq := drawQubits ops ++ (if (Rep.finals ops 0).isEmpty then [] else [glob])
+  let probsOf (qs : List Nat) (a : Array GI) : List Int :=
+    if dm then (List.range (2 ^ qs.length)).map fun j => (calculateProbabilitiesDM n qs (ofTable2 n a) j).re
+    else (List.range (2 ^ qs.length)).map (calculateProbabilities n qs (fun x => GI.abs2 (ofTable n a x)))
+  let seen := " ; ".intercalate (o.seen.map fun sh =>
+    " , ".intercalate ((dq.zip sh).map fun (qs, a) => showInts (probsOf qs a)))
+  rows ++ " | " ++ caches ++ " | " ++ showFreq k o.repFreq ++ " | " ++ toString o.tape.length ++ " | " ++ seen
+
+def nextPOp : P POp := do
+  let code ← nextNat
+  if code == 4 then
+    pure (.probs (← nextNatList))
+  else
+    let a ← nextNat
+    let b ← nextNat
+    pure <| .acc <| match code with
+      | 0 => .samples (a == 1) (b == 1)
+      | 1 => .freqs (a == 1) (b == 1)
+      | 2 => .regSamples a (b == 1)
+      | _ => .regFreqs a (b == 1)
+
+def showPAns (c : RCfg) (op : POp) : PAns → String
+  | .table t => showNats t
+  | .view out =>
+    match op with
+    | .acc rop => showOutFor c rop out
+    | _ => "?"
 
 /-- materialise after every step so closures stay shallow -/
 def stepSV (n : Nat) (st : List (List Nat) × Array GI) (op : COp GI) : List (List Nat) × Array GI :=
@@ -216,6 +340,77 @@ def handle : P String := do
     else
       let ψ ← nextGIs (2 ^ n)
       pure (showGIs (opl.foldl (stepSV n) ([], ψ)).2)
+  | "REP" =>
+    let dm ← nextNat
+    let n ← nextNat
+    let nshots ← nextNat
+    let nops ← nextNat
+    let mut ops := []
+    for _ in [0:nops] do
+      ops := (← nextQOp) :: ops
+    let opl := ops.reverse
+    let tape ← nextNatList
+    if dm == 1 then
+      let ρ ← nextGIs (2 ^ n * 2 ^ n)
+      pure (showRep true n opl (Rep.execRepeated (dmSemT n) opl nshots tape ρ))
+    else
+      let ψ ← nextGIs (2 ^ n)
+      pure (showRep false n opl (Rep.execRepeated (svSemT n) opl nshots tape ψ))
+  | "REPWF" =>
+    let nops ← nextNat
+    let mut ops := []
+    for _ in [0:nops] do
+      ops := (← nextQOp) :: ops
+    let opl := ops.reverse
+    pure s!"{if Rep.wellFormed opl 0 (fun _ => false) then 1 else 0} {Rep.need opl}"
+  | "PROBH" =>
+    let nregs ← nextNat
+    let mut regs : Array (List Nat) := #[]
+    for _ in [0:nregs] do
+      regs := regs.push (← nextNatList)
+    let c : RCfg := { nregs := nregs, reg := fun i => regs.getD i [] }
+    let rep ← nextNat
+    let T ← nextNatList
+    let nops ← nextNat
+    let mut ops := []
+    for _ in [0:nops] do
+      ops := (← nextPOp) :: ops
+    let opl := ops.reverse
+    let o : Oracle := { shots := [], batches := [], perm := [] }
+    let s0 : PState := if rep == 1 then PState.repeated c T else { base := RState.withSamples c T }
+    let outs := prun c o s0 opl
+    pure (" | ".intercalate ((opl.zip outs).map fun (op, out) => showPAns c op out))
+  | "SFREQRLE" =>
+    -- batches given run-length encoded: nb, then per batch nruns (value count)*
+    let k ← nextNat
+    let nb ← nextNat
+    let mut bs : List (List Nat) := []
+    for _ in [0:nb] do
+      let nr ← nextNat
+      let mut b : List Nat := []
+      for _ in [0:nr] do
+        let v ← nextNat
+        let cnt ← nextNat
+        b := b ++ List.replicate cnt v
+      bs := b :: bs
+    let bl := bs.reverse
+    pure (showFreq k (sampleFrequencies bl) ++ " | " ++ showNats (bl.map List.length))
+  | "ADD" =>
+    let nit ← nextNat
+    let mut its := []
+    for _ in [0:nit] do
+      its := (← nextItem) :: its
+    pure (runAdd 0 {} its.reverse)
+  | "ADDSPEC" =>
+    -- the closed-form SPEC of the theorems, for cross-checking the fold inside the driver
+    let nit ← nextNat
+    let mut its := []
+    for _ in [0:nit] do
+      its := (← nextItem) :: its
+    let fl := CAdd.flat its.reverse
+    let fin := (List.range fl.length).filter (CAdd.isFinal fl)
+    let col := (List.range fl.length).filter (CAdd.collSpec fl)
+    pure (showNats fin ++ " | " ++ showNats col)
   | "" => pure ""
   | c => pure s!"bad-op {c}"
 
